@@ -67,7 +67,37 @@ def make_protocol(c, rpc=False, validator=True):
     kw = dict(ignore_wrappers=c['iw'], complex_as=list if c['list'] else dict, polymorphic=c['poly'])
     if validator and c['soft']:
         kw['validator'] = 'soft'
-    return P(**kw)
+    p = P(**kw)
+    _watch_decimal_reader(p)
+    return p
+
+
+# Decimal(repr(float)) is the one leaf conversion the model leaves out (a float in a Decimal slot; only ever a
+# non-conformant document): the reader is observed, and a case in which it was handed a float is not compared
+UNMODELLED = [0]
+
+
+def _watch_decimal_reader(p):
+    from spyne.model.primitive import Decimal
+    for tab in (p._from_unicode_handlers, p._from_bytes_handlers):
+        h = tab.get(Decimal)
+        if h is None or getattr(h, '_c02_watched', False):
+            continue
+
+        def w(cls, value, *a, _h=h, **kw):
+            if isinstance(value, float):
+                UNMODELLED[0] += 1
+            return _h(cls, value, *a, **kw)
+        w.__name__ = getattr(h, '__name__', 'w')
+        w._c02_watched = True
+        tab[Decimal] = w
+
+
+def unmodelled(fn, *args):
+    """run fn(*args); -> (result, True if the run left the modelled region)"""
+    UNMODELLED[0] = 0
+    r = fn(*args)
+    return r, UNMODELLED[0] > 0
 
 
 # ------------------------------------------------------------------ universes
